@@ -137,6 +137,126 @@ def gen_pow_cases(ctx, tier, variant):
             cases.append(("q5", "pow", ["3", "6", "100", str(sd + 10)] + "h0.1 h0.2 h0.1 P0.3 h0.3 C h0.1 h0.2".split()))
     return cases
 
+R2_OPS = ("hdr", "lrum")
+
+
+def _hx(v):
+    return ("-%x" % -v) if v < 0 else ("%x" % v)
+
+
+def gen_r2_cases(ctx, tier):
+    """round 2: VbkBlock::toRaw / epoch read-back (HeaderDefs) and lru11 with arbitrary values (LruMapDefs)"""
+    r = ctx.rng
+    cases, pairs = [], []
+    heights = [-(1 << 31), (1 << 31) - 1, -1, 0, 1, 7999, 8000, 8001, -7999, -8000, -8001, 15999, 16000, 255, 256, 65536, 1 << 24]
+    nonces = [0, 1, (1 << 40) - 1, 1 << 40, (1 << 40) + 1, (1 << 64) - 1, 1 << 63, 255, 256]
+
+    def rnd_hdr():
+        return [r.choice(heights) if r.chance(1, 2) else r.range(-(1 << 31), (1 << 31) - 1),
+                r.choice([-32768, 32767, -1, 0, 2, 255, 256]) if r.chance(1, 2) else r.range(-32768, 32767),
+                r.bytes(12), r.bytes(9), r.bytes(9), r.bytes(16),
+                r.choice([0, (1 << 32) - 1, 1 << 31, 1600000000]) if r.chance(1, 2) else r.below(1 << 32),
+                r.choice([-(1 << 31), (1 << 31) - 1, -1, 0]) if r.chance(1, 2) else r.range(-(1 << 31), (1 << 31) - 1),
+                r.choice(nonces) if r.chance(1, 2) else (r.below(1 << 40) if r.chance(2, 3) else r.below(1 << 64))]
+
+    def fmt(h):
+        return [_hx(h[0]), _hx(h[1]), h[2].hex(), h[3].hex(), h[4].hex(), h[5].hex(), _hx(h[6]), _hx(h[7]), _hx(h[8])]
+
+    nh = 300 if tier == "quick" else 3000
+    for i in range(nh):
+        h = rnd_hdr()
+        cases.append(("H%d" % i, "hdr", fmt(h)))
+        # one field changed, everything else kept (nonce changes stay inside / cross the 40 written bits)
+        for fld in ([r.below(9)] if tier == "quick" else range(9)):
+            g = list(h)
+            if fld in (2, 3, 4, 5):
+                b = bytearray(g[fld]); b[r.below(len(b))] ^= 1 << r.below(8); g[fld] = bytes(b)
+            elif fld == 8:
+                g[8] = h[8] ^ (1 << r.below(64))
+            else:
+                w = (32, 16, 0, 0, 0, 0, 32, 32)[fld]
+                lo = 0 if fld == 6 else -(1 << (w - 1))
+                g[fld] = (((h[fld] - lo) ^ (1 << r.below(w))) & ((1 << w) - 1)) + lo
+            cid = "H%d.%d" % (i, fld)
+            cases.append((cid, "hdr", fmt(g)))
+            pairs.append(("H%d" % i, cid, fld, (h[8] ^ g[8]) >> 40 == 0 if fld != 8 else (h[8] ^ g[8]) & ((1 << 40) - 1) != 0))
+    nl = 0
+    for maxsize in (0, 1, 2, 4):
+        for elast in (0, 1, 3):
+            for s_ in range(12 if tier == "quick" else 150):
+                keys = list(range(1, maxsize + elast + r.range(1, 4) + 1))
+                ops = []
+                for _ in range(r.range(10, 70)):
+                    x = r.below(20)
+                    ops.append("c" if x == 0 else ("i%d.%d" % (r.choice(keys), r.below(5))) if x < 10 else "t%d" % r.choice(keys))
+                nl += 1
+                cases.append(("M%d" % nl, "lrum", [str(maxsize), str(elast)] + ops))
+    return cases, pairs
+
+
+def run_r2(ctx, harness_bin, cases, pairs):
+    """model = proved specification (C17_header_*, C17_lru_refines_map): a difference on input x is a violation"""
+    okh, hmodel, hlog = vlib.build_model("Hdr")
+    if not okh:
+        ctx.broken.append("model-build(Hdr): " + hlog[-300:])
+        return
+    inp = os.path.join(ctx.work, "cases-r2.txt")
+    with open(inp, "w") as f:
+        for c in cases:
+            f.write(line(c) + "\n")
+    rc, res, orc, err = vlib.run_lines([harness_bin], inp, timeout=1500, env=SAN_ENV)
+    rcm, mres, _, merr = vlib.run_lines([hmodel], inp)
+    if rcm != 0:
+        ctx.broken.append("runner: Hdr model rc=%d %s" % (rcm, merr[-300:]))
+    if rc != 0:
+        ctx.broken.append("runner: h_cache rc=%d on the round-2 cases %s" % (rc, err[-300:]))
+    byid = {c[0]: c for c in cases}
+    for i, t in orc:
+        if i in byid:
+            ctx.violation({"kind": "input", "cases": [list(byid[i])], "variant": "rel", "what": t})
+    n = {"hdr": 0, "lrum": 0}
+    epochs, hits, miss, neg = set(), 0, 0, 0
+    for c in cases:
+        i = c[0]
+        if mres.get(i, "").startswith("MODEL-ERROR"):
+            ctx.broken.append("model(Hdr): %s on %s" % (mres.get(i), line(c)[:200]))
+            continue
+        if i not in res:
+            continue
+        n[c[1]] += 1
+        if mres.get(i) != res.get(i):
+            ctx.violation({"kind": "input", "cases": [list(c)], "variant": "rel", "model": mres.get(i), "impl": res.get(i),
+                           "what": ("toRaw bytes / epoch requested by progPowHashImpl differ from the model (HeaderDefs)" if c[1] == "hdr"
+                                    else "lru11 answers differ from the model that refines the unbounded map (LruMapDefs)")})
+        if c[1] == "hdr":
+            epochs.add(res[i].split()[-1])
+            neg += c[2][0].startswith("-")
+        else:
+            hits += sum(1 for t in res[i].split() if t.startswith("v"))
+            miss += res[i].split().count("m")
+    sens = coll = 0
+    for a, b, fld, must_differ in pairs:
+        if a in res and b in res:
+            differ = res[a].split()[0] != res[b].split()[0]
+            if must_differ and not differ:
+                ctx.violation({"kind": "input", "cases": [list(byid[a]), list(byid[b])], "variant": "rel",
+                               "what": "two headers differing in field %d serialise to the same bytes" % fld})
+            sens += differ
+            coll += (not differ)
+    ctx.cov["r2_header_cases"] = n["hdr"]
+    ctx.cov["r2_header_distinct_epochs"] = len(epochs)
+    ctx.cov["r2_header_negative_heights"] = neg
+    ctx.cov["r2_single_field_pairs_distinct_bytes"] = sens
+    ctx.cov["r2_nonce_pairs_same_bytes_beyond_40_bits"] = coll
+    ctx.cov["r2_lru_map_sequences"] = n["lrum"]
+    ctx.cov["r2_lru_map_hits_misses"] = [hits, miss]
+    ctx.cov["evaluations"] = ctx.cov.get("evaluations", 0) + n["hdr"] + n["lrum"]
+    ctx.cov["disagreements_checked"] = ctx.cov.get("disagreements_checked", 0) + n["hdr"] + n["lrum"]
+    ctx.cov["distinct_nontrivial"] = ctx.cov.get("distinct_nontrivial", 0) + len({(c[1], tuple(c[2])) for c in cases if c[0] in res})
+    ctx.cov.setdefault("op_histogram", {}).update(n)
+    for c in cases[:1] + cases[-1:]:
+        ctx.sample({"variant": "rel", "case": line(c)[:200], "impl": (res.get(c[0]) or "")[:200], "model": (mres.get(c[0]) or "")[:200]})
+
 
 def line(c):
     return "%s %s %s" % (c[0], c[1], " ".join(c[2]))
@@ -159,8 +279,10 @@ def run(ctx):
     if ctx.replay and "cases" in ctx.replay:
         rc_cases = [tuple(c) if not isinstance(c, dict) else (c["id"], c["op"], c["args"]) for c in ctx.replay["cases"]]
         rc_cases = [(c[0], c[1], list(c[2])) for c in rc_cases]
+        r2_cases, r2_pairs = [c for c in rc_cases if c[1] in R2_OPS], []
+        rc_cases = [c for c in rc_cases if c[1] not in R2_OPS]
         v = ctx.replay.get("variant", "rel")
-        plan = [(v if v in bins else "rel", rc_cases)]
+        plan = [(v if v in bins else "rel", rc_cases)] if rc_cases else []
     else:
         templ = gen_template_cases(ctx, ctx.tier)
         plan = [("rel", templ + gen_pow_cases(ctx, ctx.tier, "rel")),
@@ -169,6 +291,7 @@ def run(ctx):
             # ASan+UBSan (-O0): templates, hit path and one real single-epoch sequence (slow)
             plan.append(("asan", templ[::11] + [("s1", "powhit", ["4", "77", "50"]),
                                                  ("s2", "pow", ["2", "6", "100", "78"] + "h0.1 h0.2 h0.1 P0.3 h0.3 C h0.1 F0.4".split())]))
+        r2_cases, r2_pairs = gen_r2_cases(ctx, ctx.tier)      # after the round-1 generators: their sequences per seed are unchanged
     total = 0
     policy_same = 0
     policy_diff = []
@@ -242,6 +365,8 @@ def run(ctx):
     ctx.cov["policy_disagreements_not_gating"] = policy_diff
     ctx.cov["op_histogram"] = ophist
     ctx.cov["variants"] = [v for v, _ in plan]
+    if r2_cases:
+        run_r2(ctx, bins["rel"], r2_cases, r2_pairs)
     ctx.cov["trusted_base"] = [
         "Section variables assumed pure: hash (vProgPoW kernel), mk (ethash light cache + DAG), ep, hk (sha256twice, injective)",
         "cache-free reference in the harness: progPowHash(header, light) with a light cache built by the harness",
